@@ -40,7 +40,8 @@ def _decay_case(nprod, rest_kind, tiny=False):
         for i in range(nprod):
             T = E.real('Thalf%d' % i, lo=0, lo_open=True, hi=1e9, srange=(0.5, 50) if not tiny else (1e4, 1e6))
             rows.append(activation.ActivationResult(Thalf_hrs=T, isotope='X-%d' % i, daughter='Y-%d' % i, reaction='act'))
-            A0.append(E.real('A0_%d' % i, lo=0, lo_open=True, hi=1e9, srange=(0.1, 100) if not tiny else (2e-8, 2e-7)))
+            A0.append(E.real('A0_%d' % i, lo=0, lo_open=True, hi=1e9,
+                             srange=(0.1, 100) if not tiny else ((2e-8, 2e-7) if i < 2 else (3e-11, 9.5e-11))))
             lam.append(LN2 / T)
         if rest_kind == 'zero_only':
             rests = [0]
@@ -156,6 +157,51 @@ def _independence(E, activation, rows, A0, target, got):
         E.true('independent_of_rest_list', abs(got - ref) <= 1e-3 * max(1.0, abs(ref)), note='%r vs %r with rest list [0]' % (got, ref))
 
 
+def _through_calculation_case(case, tier, seed):
+    """ground (concrete): after a real calculate_activation the answer does not depend on the order or
+    choice of the requested rest times, is within 0.1 % of the target and >= 0"""
+    import itertools
+    from periodictable import activation
+    res = dict(paths=1, claims=0, discharged=0, queries=0, distinct=0, violations=[], inconclusive=[], samples=[], solver_s=0.0, complete=True)
+    env = activation.ActivationEnvironment(fluence=1e13, Cd_ratio=0., fast_ratio=0.)
+    for ftxt, mass in (('Co', 1.0), ('Au', 0.5), ('Co30Fe70', 2.0)):
+        ref = None
+        for rests in ([0], [0, 1, 24, 360], [24, 0], [360, 24, 1, 0], [1, 0, 24], (0, 5)):
+            s = activation.Sample(ftxt, mass)
+            s.calculate_activation(env, exposure=10, rest_times=rests)
+            total0 = sum(v[list(rests).index(0)] for v in s.activity.values())
+            for frac in (0.5, 0.01, 1e-4):
+                res['claims'] += 1
+                target = total0 * frac
+                try:
+                    t = s.decay_time(target)
+                except RuntimeError:
+                    t = 'RuntimeError'
+                except Exception as e:   # noqa: BLE001
+                    t = type(e).__name__
+                key = (ftxt, frac)
+                if ref is None or key not in ref:
+                    ref = ref or {}
+                    ref[key] = t
+                    ok = not isinstance(t, str) and t >= 0
+                    if ok:
+                        s2 = activation.Sample(ftxt, mass)
+                        s2.calculate_activation(env, exposure=10, rest_times=[t])
+                        tot = sum(v[0] for v in s2.activity.values())
+                        ok = abs(tot - target) <= 0.001 * target * (1 + 1e-6)
+                else:
+                    r = ref[key]
+                    ok = (t == r) if isinstance(t, str) or isinstance(r, str) else abs(t - r) <= 1e-3 * max(1.0, abs(r))
+                if ok:
+                    res['discharged'] += 1
+                elif len(res['violations']) < 5:
+                    res['violations'].append(dict(case=case.name, claim='decay_time_after_calculation', values={'formula': ftxt, 'rest_times': list(rests), 'target_fraction': frac},
+                                                  observed=[repr(t), repr(ref.get(key))], how='concrete: real calculate_activation + decay_time'))
+    res['queries'] = res['distinct'] = res['claims']
+    res['samples'] = [dict(checked=res['claims'])]
+    return res
+
+
 def _is_zero(x):
     return (not isinstance(x, SymReal)) and x == 0
 
@@ -210,6 +256,9 @@ def cases(tier):
     # (tiny activities, long half-lives): exercises the 0.1 % acceptance test / RuntimeError on real runs
     out.append(Case('decay_time_tiny_activity[products=2|rests=zero_first]', _decay_case(2, 'zero_first', tiny=True), max_paths=mp, timeout_ms=to,
                     nsamples=40 if not th else 200, conc_rel=1e-6))
+    out.append(Case('decay_time_tiny_activity[products=3|rests=zero_only]', _decay_case(3, 'zero_only', tiny=True), max_paths=mp, timeout_ms=to,
+                    nsamples=40 if not th else 200, conc_rel=1e-6))
+    out.append(Case('decay_time_after_real_calculation', None, custom=_through_calculation_case))
     out.append(Case('no_activation', _degenerate_case, max_paths=4))
     for m in ((1, 2) if not th else (1, 2, 3)):
         out.append(Case('find_root_contract[max=%d]' % m, _find_root_case(m), max_paths=mp, timeout_ms=to, nsamples=1, validate=False))
